@@ -57,17 +57,20 @@ func runC09(c *Ctx) {
 	if c.Want("lake") {
 		// known mechanisms end to end
 		for _, oc := range knownCases() {
-			if len(oc.Objects) == 1 {
-				h.lakeCheck(oc)
-			}
+			h.lakeCheck(oc)
 		}
+		// three dictionary-encoded objects sharing keys, two scan legs: whichever way the
+		// scheduler deals them, one leg scans two of them and countDict overwrites
+		h.lakeCheck(&ocase{Label: "dict-three-objects", Types: []*TSpec{Prim(zed.IDString)},
+			Objects: [][]rec{strRecs("a", "b", "a"), strRecs("a", "b", "a"), strRecs("a", "b", "a")}})
 		n := c.N(25, 300)
 		for i := 0; i < n; i++ {
 			oc := randomCase(c)
-			if c.Rng.Intn(3) == 0 {
+			switch c.Rng.Intn(4) {
+			case 0:
 				oc = constStringObjects(c)
-			} else {
-				oc.Objects = oc.Objects[:1]
+			case 1:
+				oc = dictStringObjects(c)
 			}
 			h.lakeCheck(oc)
 		}
@@ -194,6 +197,20 @@ func constStringObjects(c *Ctx) *ocase {
 	return oc
 }
 
+// dictStringObjects: 2..4 objects of dictionary-encoded string columns with shared keys.
+func dictStringObjects(c *Ctx) *ocase {
+	oc := &ocase{Label: "dict-strings", Types: []*TSpec{Prim(zed.IDString)}}
+	keys := []string{"a", "b", "c", ""}
+	for o := 0; o < 2+c.Rng.Intn(3); o++ {
+		var ss []string
+		for k := 0; k < 2+c.Rng.Intn(5); k++ {
+			ss = append(ss, keys[c.Rng.Intn(len(keys))])
+		}
+		oc.Objects = append(oc.Objects, strRecs(ss...))
+	}
+	return oc
+}
+
 // knownCases: the witnesses of findings/C09.json and of the not_… theorems of Props/C09.lean.
 func knownCases() []*ocase {
 	str, i64 := Prim(zed.IDString), Prim(zed.IDInt64)
@@ -228,6 +245,100 @@ func knownCases() []*ocase {
 }
 
 // ---- lake: before / after AddVectors ---------------------------------------------------------------
+//
+// The planner vectorizes only when the query runs with more than one scan leg, and the legs
+// pull objects from one shared lister: which leg scans which object is up to the scheduler.
+// The check is schedule-independent: the oracle compares multisets (a correct vector runtime
+// gives the sequential result under every schedule), and the real result with vector copies
+// must be one of the results the model predicts for SOME distribution of the objects over
+// the legs (every set partition into at most `legs` blocks, lister order inside a block,
+// partial results combined as the final summarize does).
+
+// setPartitions: all partitions of 0..n-1 into at most maxBlocks blocks (blocks in order of
+// their smallest element, elements ascending).
+func setPartitions(n, maxBlocks int) [][][]int {
+	var out [][][]int
+	labels := make([]int, n)
+	var rec func(i, used int)
+	rec = func(i, used int) {
+		if i == n {
+			blocks := make([][]int, used)
+			for k, l := range labels {
+				blocks[l] = append(blocks[l], k)
+			}
+			out = append(out, blocks)
+			return
+		}
+		for l := 0; l <= used && l < maxBlocks; l++ {
+			labels[i] = l
+			nu := used
+			if l == used {
+				nu++
+			}
+			rec(i+1, nu)
+		}
+	}
+	if n == 0 {
+		return [][][]int{{}}
+	}
+	rec(0, 0)
+	return out
+}
+
+// modelLakeOutcomes: the canonical results the model allows for the vectorized query.
+func (h *harness) modelLakeOutcomes(oc *ocase, agg string, legs int) map[string]bool {
+	objs := oc.modelObjectList()
+	out := map[string]bool{}
+	vals := oc.intVals()
+	for _, part := range setPartitions(len(objs), legs) {
+		panicked := false
+		counts := map[string]int{}
+		total := int64(0)
+		for _, block := range part {
+			var sb strings.Builder
+			for _, i := range block {
+				sb.WriteByte(' ')
+				sb.WriteString(objs[i])
+			}
+			if agg == "countby" {
+				ans := h.c.Model().Call("(C09 countby" + sb.String() + ")")
+				if !strings.HasPrefix(ans, "ok") {
+					panicked = true
+					break
+				}
+				for _, r := range splitRows(strings.TrimPrefix(ans, "ok")) {
+					// r = ((type value) count)
+					i := strings.LastIndex(r, " ")
+					n := 0
+					fmt.Sscanf(r[i+1:len(r)-1], "%d", &n)
+					counts[r[1:i]] += n
+				}
+			} else {
+				ans := h.c.Model().Call("(C09 sum " + vals + sb.String() + ")")
+				if !strings.HasPrefix(ans, "ok ") {
+					panicked = true
+					break
+				}
+				var n int64
+				fmt.Sscanf(strings.TrimPrefix(ans, "ok "), "%d", &n)
+				total += n // int64 wrap-around like the combiner
+			}
+		}
+		switch {
+		case panicked:
+			out["panic"] = true
+		case agg == "countby":
+			var rows []string
+			for k, n := range counts {
+				rows = append(rows, fmt.Sprintf("(%s %d)", k, n))
+			}
+			out["ok "+strings.Join(sorted(rows), " ")] = true
+		default:
+			out[fmt.Sprintf("ok %d", total)] = true
+		}
+	}
+	return out
+}
 
 func (h *harness) lakeCheck(oc *ocase) {
 	c := h.c
@@ -235,6 +346,12 @@ func (h *harness) lakeCheck(oc *ocase) {
 	c.Stat(fmt.Sprintf("lake:objects:%d", len(oc.Objects)))
 	req := oc.wreq("lake")
 	req.Queries = []string{"count() by f", "sum(f)"}
+	legs := 16
+	if len(oc.Objects) > 1 {
+		// two legs: with three objects some leg scans at least two of them
+		req.Parallelism = 2
+		legs = 2
+	}
 	var resp wResp
 	crashed, msg := h.w.Call(req, 90*time.Second, &resp)
 	aggs := []string{"countby", "sum"}
@@ -258,6 +375,32 @@ func (h *harness) lakeCheck(oc *ocase) {
 		if b.Err != "" {
 			c.Stat("lake:sequential-error")
 			continue
+		}
+		// T2: the result with vectors is one the model allows for some schedule
+		real := ""
+		switch {
+		case a.Err != "" && strings.Contains(a.Err, "panic"):
+			real = "panic"
+		case a.Err != "":
+			real = "error " + trunc(a.Err, 100)
+		case agg == "countby":
+			real = "ok " + strings.Join(cbRowsCanon(a.Rows), " ")
+		default:
+			real = "ok " + strings.Join(a.Out, " ")
+		}
+		if len(oc.Objects) <= 4 {
+			c.Res.ModelCases++
+			outs := h.modelLakeOutcomes(oc, agg, legs)
+			c.Stat(fmt.Sprintf("lake:model-outcomes:%d", len(outs)))
+			if !outs[real] {
+				var all []string
+				for k := range outs {
+					all = append(all, trunc(k, 160))
+				}
+				c.Fail("correspondence", "C09:corr:lake:"+agg, fmt.Sprintf("`%s` with vector copies gives %s, which the model predicts for no distribution of the %d objects over %d scan legs (model: %s); objects%s", req.Queries[i], trunc(real, 200), len(oc.Objects), legs, strings.Join(sorted(all), " | "), trunc(oc.modelObjects(), 300)), oc.replay("lake"))
+			} else {
+				c.Stat("lake:" + agg + ":model-explains")
+			}
 		}
 		class := ""
 		switch {
@@ -293,7 +436,7 @@ func (h *harness) lakeCheck(oc *ocase) {
 			kind = "panic"
 		}
 		q := req.Queries[i]
-		c.Fail(kind, key, fmt.Sprintf("`from pool | %s` changes when vector copies are added: without=%s with=%s (%s); objects%s", q, trunc(strings.Join(b.Out, " "), 200), trunc(strings.Join(a.Out, " "), 200), trunc(strings.SplitN(a.Err, "\n", 2)[0], 120), trunc(oc.modelObjects(), 300)), oc.replay("lake"))
+		c.Fail(kind, key, fmt.Sprintf("`from pool | %s` (%d objects, %d scan legs) changes when vector copies are added: without=%s with=%s (%s); objects%s", q, len(oc.Objects), legs, trunc(strings.Join(b.Out, " "), 200), trunc(strings.Join(a.Out, " "), 200), trunc(strings.SplitN(a.Err, "\n", 2)[0], 120), trunc(oc.modelObjects(), 300)), oc.replay("lake"))
 	}
 }
 
